@@ -159,10 +159,17 @@ def run(ctx):
             ctx.disagreement("model-vs-strict-reading", {"stream": s.hex(), "lim": list(lim)}, m["outcome"], sp["detail"])
         if sp["kind"] == "REJECT" and m["outcome"].startswith("OK"):
             ctx.disagreement("model-vs-strict-reading", {"stream": s.hex(), "lim": list(lim)}, m["outcome"], sp["detail"])
+        nv = len(ctx.violations) + sum(ctx.known_hits.values())
         judge(ctx, s, lim, sp, im, "one-shot")
+        one_shot_ok = (len(ctx.violations) + sum(ctx.known_hits.values())) == nv
         if ran % (6 if ctx.quick else 3) == 0 and len(s) < 500:
             imb = H.impl_run([s[i:i + 1] for i in range(len(s))], lim)
-            judge(ctx, s, lim, sp, imb, "byte-at-a-time")
+            # a difference that only appears under another segmentation while the one-shot reading is the
+            # strict one is a segmentation dependence: C03's subject (reported there), not a framing error
+            if not (one_shot_ok and H.consistent(im, imb) is not None):
+                judge(ctx, s, lim, sp, imb, "byte-at-a-time")
+            else:
+                ctx.count("segmentation-dependence-left-to-C03")
     ctx.sample({"stream": items[-1][0].hex(), "lim": list(items[-1][1]), "strict": specs[-1]["detail"][:60] if specs[-1] else None})
     ctx.close_suite("request-parser-model", ran)
     ctx.close_suite("model-vs-strict-reading", ran)
